@@ -97,14 +97,22 @@ def objective_values(steps, factors):
 FACTORS = sorted({k for _, _, (w, k) in OBJECTIVES if k is not None})
 
 
-def path_steps(spec, n, ssa_path):
-    """replay an ssa path: returns (steps [(flops,size)], any_outer, complete)"""
+def path_steps(spec, n, ssa_path, allow_single=False):
+    """replay an ssa path: returns (steps [(flops,size)], any_outer) or None if it is not a
+    complete pairwise contraction.  allow_single: accept the single-term simplification steps
+    `(i,)` that preprocessing emits on networks outside the precondition (not costed)."""
     sets = {i: frozenset([i]) for i in range(n)}
     live = set(range(n))
     nxt = n
     steps = []
     outer = False
     for con in ssa_path:
+        if allow_single and len(con) == 1 and con[0] in live:
+            live.discard(con[0])
+            sets[nxt] = sets[con[0]]
+            live.add(nxt)
+            nxt += 1
+            continue
         if len(con) != 2:
             return None
         i, j = con
@@ -288,9 +296,16 @@ def worker_main():
         return g
 
     out = []
+    ntimeouts = 0
     for job in jobs:
         kind = job["kind"]
         res = {"id": job["id"]}
+        if ntimeouts >= 3:
+            # circuit breaker: the finder does not terminate any more; do not burn the budget
+            res["error"] = "skipped after 3 timeouts in this worker"
+            res["skipped"] = True
+            out.append(res)
+            continue
         signal.setitimer(signal.ITIMER_REAL, job.get("timeout", 20))
         try:
             inputs = [tuple(t) for t in job["inputs"]]
@@ -349,7 +364,8 @@ def worker_main():
                 pb.parse_minimize_for_optimal(s)
                 res["ok"] = True
         except Alarm:
-            res["error"] = "timeout"
+            res["error"] = "timeout (%ss)" % job.get("timeout", 20)
+            ntimeouts += 1
         except Exception as e:  # noqa
             res["error"] = "%s: %s" % (type(e).__name__, e)
         finally:
@@ -425,7 +441,7 @@ def run(ctx):
         jobs.append({"id": "dp%d" % c, "kind": "dp", "inputs": [list(t) for t in inputs], "output": list(output),
                      "size_dict": sd, "simplify": rng.random() < 0.5, "minimize": mini,
                      "cap": rng.choice(CAPS), "search_outer": rng.random() < 0.5,
-                     "trace": 1500 if c % 2 == 0 else 0, "net": kindnet, "cobj": cobj, "timeout": 30})
+                     "trace": 1500 if c % 2 == 0 else 0, "net": kindnet, "cobj": cobj, "timeout": 15})
     # K2 + oracle: end to end on precondition networks
     n_net = ctx.n(24, 260)
     nets = []
@@ -449,7 +465,19 @@ def run(ctx):
                              "inputs": [list(t) for t in inputs], "output": list(output), "size_dict": sd,
                              "minimize": mini, "cap": cap, "search_outer": so, "oi": oi,
                              "entry": rng.choice(["function", "function", "class", "call"]),
-                             "timeout": 120})
+                             "timeout": 30 if n <= 8 else 90})
+    # informational only: networks OUTSIDE the precondition (the property does not apply; never judged)
+    info_nets = []
+    for c in range(ctx.n(40, 300)):
+        inputs, output, sd = gen.rand_net(rng, nmin=3, nmax=6, p_scalar=0.05)
+        if precondition(inputs, output, sd) or any(ix not in {a for t in inputs for a in t} for ix in output):
+            continue
+        info_nets.append((inputs, output, sd))
+        oi = rng.randrange(6)
+        jobs.append({"id": "info%d" % c, "kind": "e2e", "net": len(info_nets) - 1, "info": True,
+                     "inputs": [list(t) for t in inputs], "output": list(output), "size_dict": sd,
+                     "minimize": OBJECTIVES[oi][0], "cap": 2, "search_outer": True, "oi": oi,
+                     "entry": "function", "timeout": 60})
     jobs.append({"id": "parse", "kind": "parse", "inputs": [], "output": [], "size_dict": {},
                  "minimize": "combo-256"})
     jobs.append({"id": "parse2", "kind": "parse", "inputs": [], "output": [], "size_dict": {},
@@ -484,10 +512,41 @@ def run(ctx):
         specs[c] = (spec, mins)
     ctx.log("oracle enumeration done (%.1fs)" % (time.time() - t0))
 
+    # ---- informational: outside the precondition, compare with the true minimum, do not judge
+    for job in jobs:
+        if job["kind"] != "e2e" or not job.get("info"):
+            continue
+        r = results[job["id"]]
+        inputs, output, sd = info_nets[job["net"]]
+        okey = OBJECTIVES[job["oi"]][2]
+        feats = sorted(gen.net_features(inputs, output, sd) & {"repeat", "scalar", "on_all", "leaf_only", "disconnected"})
+        if len({frozenset(t) for t in inputs}) != len(inputs):
+            feats.append("same_index_set")
+        tag = "+".join(feats) or "other"
+        if r.get("error"):
+            ctx.count("info_outside_precondition:error")
+            continue
+        spec = SpecNet(inputs, output, sd)
+        ps = path_steps(spec, len(inputs), [tuple(p) for p in r["path"]], allow_single=True)
+        if ps is None:
+            ctx.count("info_outside_precondition:incomplete_path")
+            continue
+        got = objective_values(ps[0], FACTORS)[okey]
+        _, best_all, _ = enumerate_minima(spec, len(inputs))
+        if got == best_all[okey]:
+            ctx.count("info_outside_precondition:optimal")
+        else:
+            ctx.count("info_outside_precondition:not_optimal")
+            ctx.count("info_not_optimal[%s]" % tag)
+            if len(ctx.notes) < 8:
+                ctx.notes.append("outside the precondition (not judged): %s minimize=%s search_outer=True cost %d, "
+                                 "minimum over all trees %d, net %r -> %r %r"
+                                 % (tag, job["minimize"], got, best_all[okey], inputs, output, sd))
+
     cases, recs = [], []
     seen_net_model = set()
     for job in jobs:
-        if job["kind"] != "e2e":
+        if job["kind"] != "e2e" or job.get("info"):
             continue
         r = results[job["id"]]
         c = job["net"]
@@ -501,6 +560,9 @@ def run(ctx):
         ctx.count("e2e_n%d" % n)
         ctx.count("e2e_%s" % mini)
         ctx.count("e2e_cap_%s" % ("tiny" if job["cap"] <= 5 else "mid" if job["cap"] <= 4096 else "huge"))
+        if r.get("skipped"):
+            ctx.count("skipped_after_timeouts")
+            continue
         if r.get("error"):
             ctx.fail("optimal finder failed on a precondition network: %s" % r["error"], rec)
             continue
@@ -579,6 +641,9 @@ def run(ctx):
             continue
         r = results[job["id"]]
         rec = {k: job[k] for k in ("inputs", "output", "size_dict", "simplify", "minimize", "cap", "search_outer")}
+        if r.get("skipped"):
+            ctx.count("skipped_after_timeouts")
+            continue
         if r.get("error"):
             # the property does not speak about perverse networks; on precondition networks
             # an exception / timeout of the real DP is a failure of the property
